@@ -113,6 +113,15 @@ def step (s : St) (line : String) : St × String :=
             (match Lay.rewriteStr s.buf.mem.toList a (.cap n) with
              | .ok m' => m' == b.mem.toList && e.isNone
              | .error _ => e.isSome && b.mem.toList == s.buf.mem.toList)
+          | .array _ shp0 _, _ =>
+            -- the proof model's whole-array update (`Lay.updateArr`, the subject of the C11_array_update_* theorems) on the same memory
+            (match Drv.LayP.tyP tt, Drv.LayP.valP tt v with
+             | some (.array it shp ord), some (.arr sh items) =>
+               let given := LayM.shapeOf v shp0.length
+               (match Lay.updateArr it shp ord s.buf.mem.toList a (.arr (if given == sh then sh else given) items) with
+                | .ok m' => m' == b.mem.toList && e.isNone
+                | .error _ => e.isSome && b.mem.toList == s.buf.mem.toList)
+             | _, _ => true)
           | _, _ => true
         -- the proof model's PATH machinery (`leafAt`, `updAt`) on the same assignment: the leaf's address and width, and
         -- the whole object's value afterwards
